@@ -434,7 +434,8 @@ func expandGlob(root, pattern string) ([]string, error) {
 	var matches []string
 	ignoreHiddenGlobFn := func(path string, d fs.DirEntry) error {
 		if strings.HasPrefix(path, ".") {
-			return filepath.SkipDir
+			// Hidden entries are left out, but the rest of the directory must still be listed
+			return nil
 		}
 
 		abs, err := filepath.Abs(filepath.Join(root, path))
